@@ -209,13 +209,20 @@ def main_check(mod, tier, batch_seed, out=sys.stdout):
             sg = mod.signature(r['trace'], r)
             presig[id(r)] = sig_key(sg)
             by_pre.setdefault(sig_key(sg), (r, sg))
+        # A listed known finding is only recognised on the *minimised* trace (an unshrunk trace may merely contain the
+        # known finding's structural precondition by accident). Candidates whose unshrunk signature does not match any
+        # known finding are examined first.
         unknown_pre = []
+        maybe_known = []
         for k, (r, sg) in by_pre.items():
-            e = find_known(mod, known_live, sg)
-            if e is not None:
-                known_hits[e['what']] += sum(1 for x in rs if presig[id(x)] == k)
-            else:
-                unknown_pre.append((k, r))
+            (maybe_known if find_known(mod, known_live, sg) is not None else unknown_pre).append((k, r))
+        n_unknown = len(unknown_pre)
+        unknown_pre = unknown_pre + maybe_known
+        deferred_known = {k for k, _ in maybe_known[max(0, reps_per_clause - n_unknown):]}
+        for k in deferred_known:  # beyond the shrink budget: fall back to the unshrunk signature
+            e = find_known(mod, known_live, by_pre[k][1])
+            known_hits[e['what']] += sum(1 for x in rs if presig[id(x)] == k)
+        unknown_pre = [(k, r) for k, r in unknown_pre if k not in deferred_known]
         for k, rep in unknown_pre[:reps_per_clause]:
             if n_shrunk < max_shrinks:
                 n_shrunk += 1
